@@ -126,6 +126,9 @@ def _pack(dense, fmt, dup, shape=None):
         return mat.tocsr()
     if fmt == "csc":
         return mat.tocsc()
+    if fmt in ("dia", "bsr", "lil", "dok"):
+        # further scipy.sparse formats a user's callback may return
+        return mat.asformat(fmt)
     raise ValueError(fmt)
 
 
@@ -364,7 +367,20 @@ def gen_qp(rng, n=None, m=None, nonlin=False, var_force=None, row_force=None,
         m = int(rng.integers(0, mmax + 1))
     m = min(m, mmax)
     xs = rng.uniform(-2.0, 2.0, size=n)
+    # structurally sparse derivatives whose stored pattern depends on x (entries that are exactly zero when a
+    # variable sits on a bound at 0.0): only for the nonlinear family
+    sparse_struct = bool(nonlin and rng.random() < 0.4)
+    zero_lb = np.zeros(n, dtype=bool)
+    if sparse_struct:
+        for j, k in enumerate(vkinds):
+            if k in ("lower", "boxed") and rng.random() < 0.5:
+                zero_lb[j] = True
+                xs[j] = abs(xs[j])
     lb, ub = _bounds_around(rng, xs, vkinds)
+    for j in np.where(zero_lb)[0]:
+        lb[j] = 0.0
+        if np.isfinite(ub[j]):
+            ub[j] = max(ub[j], xs[j] + 0.1)
     Q = _spd(rng, n, kappa_max)
     xunc = xs + rng.normal(size=n) * 1.5
     q = -Q @ xunc
@@ -386,9 +402,13 @@ def gen_qp(rng, n=None, m=None, nonlin=False, var_force=None, row_force=None,
         for i in range(m):
             if rng.random() < 0.6:
                 G = rng.normal(size=(n, n)) * (0.4 / n)
+                if sparse_struct:
+                    G = G * (rng.random(size=(n, n)) < min(1.0, 2.5 / n)) * n / 2.0
                 B.append(0.5 * (G + G.T))
             else:
                 B.append(None)
+        if sparse_struct and m > 0:
+            A = A * (rng.random(size=A.shape) < 0.5)
     # constraint values at the reference point
     cs = A @ xs + e
     if B is not None:
@@ -410,7 +430,7 @@ def gen_qp(rng, n=None, m=None, nonlin=False, var_force=None, row_force=None,
     x0 = start_point(rng, lb, ub)
     fam = family or ("NLP" if nonlin else "QP-dense")
     return Spec(Q, q, A, e, lb, ub, l, u, sp_a, sp_W, B, x0=x0,
-                meta={"family": fam, "xs": xs})
+                meta={"family": fam, "xs": xs, "zero_lb": [int(j) for j in np.where(zero_lb)[0]]})
 
 
 def gen_qp_band(rng, n=None):
